@@ -22,6 +22,7 @@ import (
 	"net"
 	"runtime"
 	"sort"
+	"strconv"
 	"strings"
 	"sync"
 	"time"
@@ -520,8 +521,28 @@ func (authType *ClientAuthType) MarshalJSON() ([]byte, error) {
 	return []byte(`"` + authType.String() + `"`), nil
 }
 
+// UnmarshalJSON implements the json.Unmarshaler interface. It accepts the
+// names written by MarshalJSON, including the "ClientAuthType(N)" form used
+// for values without a name.
 func (authType *ClientAuthType) UnmarshalJSON(b []byte) error {
-	panic("unimplemented")
+	var name string
+	if err := json.Unmarshal(b, &name); err != nil {
+		return err
+	}
+	for i := 0; i < len(_ClientAuthType_index)-1; i++ {
+		if ClientAuthType(i).String() == name {
+			*authType = ClientAuthType(i)
+			return nil
+		}
+	}
+	if strings.HasPrefix(name, "ClientAuthType(") && strings.HasSuffix(name, ")") {
+		n, err := strconv.ParseInt(name[len("ClientAuthType("):len(name)-1], 10, 64)
+		if err == nil && ClientAuthType(n).String() == name {
+			*authType = ClientAuthType(n)
+			return nil
+		}
+	}
+	return fmt.Errorf("unknown client auth type: %q", name)
 }
 
 // requiresClientCert reports whether the ClientAuthType requires a client
